@@ -27,7 +27,7 @@ CHECKS = {
              level_note="Keeper level: HandleRelay is called directly with the context app.NewContext(lastHeight) builds; the RPC layer (JSON decoding, sync-status gate) is "
                         "not exercised. The hosted chain is an in-process HTTP server registered through Keeper.SetHostedBlockchains on the application's own keeper. "
                         "Stakes are laid out so that session membership is decidable without re-implementing selection."),
-    "C34": c("relays", "TestC34", dict(checks=600, timeout=600), dict(checks=4000, shards=14, timeout=1500),
+    "C34": c("relays", "TestC34", dict(checks=450, timeout=600), dict(checks=4000, shards=14, timeout=1500),
              technique="schedule exploration with a harness-owned deterministic scheduler: the build-tag hook pocketTypes.VerifYield parks every goroutine between relay "
                        "validation and proof storage and between reading and writing back the evidence; a rapid-drawn sequence of goroutine ids decides who runs next "
                        "(one goroutine at a time); invariants on the stored evidence are checked at quiescence",
